@@ -8,7 +8,7 @@ from . import build
 VERIF = build.VERIF
 REPO = build.REPO
 NCPU = int(os.environ.get("VERIF_JOBS", "16"))
-SCRATCH_ROOT = os.path.join(VERIF, "build", "scratch")
+SCRATCH_ROOT = os.path.join(build.BUILD, "scratch")
 
 
 def log(*a):
@@ -53,7 +53,9 @@ class Check:
         self.rule = ""
         self.findings = [f for f in load_known_findings() if f["property"] == pid]
         self.lock = threading.Lock()
-        self.replay_dir = os.path.join(VERIF, "replay", pid)
+        # mutant runs (mc/mutant.sh) must not clobber the committed evidence / replay files
+        self.out_root = build.BUILD if os.environ.get("VERIF_NO_EVIDENCE") else VERIF
+        self.replay_dir = os.path.join(self.out_root, "replay", pid)
         self._replay_n = 0
         self.max_reported = 25
 
@@ -149,8 +151,8 @@ class Check:
             "coverage": cov, "assumptions": self.assumptions, "wall_s": round(wall, 2),
             "violations": len(self.violations),
         }
-        os.makedirs(os.path.join(VERIF, "evidence"), exist_ok=True)
-        with open(os.path.join(VERIF, "evidence", self.pid + ".json"), "w") as fh:
+        os.makedirs(os.path.join(self.out_root, "evidence"), exist_ok=True)
+        with open(os.path.join(self.out_root, "evidence", self.pid + ".json"), "w") as fh:
             json.dump(ev, fh, indent=1, default=str)
         for f in self.findings:
             if f.get("status") == "known" and self.known_hits.get(f["id"]):
